@@ -387,7 +387,10 @@ def evaluate(ctx, cases):
         lines += model_lines(c)
     outs = core.run_driver(lines)
     for k, c in enumerate(cases):
-        judge(ctx, c, impls[k], outs[3 * k: 3 * k + 3])
+        try:
+            judge(ctx, c, impls[k], outs[3 * k: 3 * k + 3])
+        except Exception as e:  # noqa: BLE001 -- what evo returned could not even be judged: a finding about this case, never a tool error
+            ctx.fail(c, "output-cannot-be-judged", f"the harness could not judge what evo returned: {type(e).__name__}: {str(e)[:200]}")
 
 
 def check(ctx):
